@@ -13,7 +13,7 @@ def Descs2.params (ds : List Desc2) : List Param := Comps.toParams (Descs2.comps
 def Descs2.supplied (ds : List Desc2) : List (String × PVal) := Comps.values (Descs2.comps ds)
 def Descs2.decoded (ds : List Desc2) : List (String × PVal) := (Comps.pair (Descs2.comps ds)).val
 
-/-- well-formed at the top level of a response to `trig` (a request: `trig = none`): MATCHING-REQUEST-PARAMs are admitted -/
+/-- well-formed at the top level of a response to `trig` (a request: `trig = none`): MATCHING-REQUEST-PARAMs are allowed -/
 def Desc2.wfTop (trig : Option Bytes) : Desc2 → Prop
   | .matching _ _ reqPos byteLen t => trig = some t ∧ AllBytes t ∧ reqPos + byteLen ≤ t.length ∧ 1 ≤ byteLen ∧ byteLen ≤ 8
   | d => d.wf
